@@ -599,7 +599,7 @@ impl World for WorldG {
                     if gateways_delay(&cfg, g) > 0 {
                         // after time passes the optimistic guess about rotations is as good as before
                     }
-                    GOp::Advance { dt, dseq: *rng.pick(&[0u32, 1, 1, 3, 100, 5000]) }
+                    GOp::Advance { dt, dseq: *rng.pick(&[0u32, 1, 1, 3, 17, 100, 5000, 1_100_000]) }
                 }
                 9 => {
                     let auth = if fault && t.auth || (focus == "C06" && rng.chance(1, 2)) {
